@@ -88,6 +88,14 @@ func NewRunnerCloserManager(log logger.Logger, gracePeriod *time.Duration, runne
 
 		select {
 		case <-t.C():
+			// The closers may have finished at the very moment the timer fired
+			// (always the case with a zero grace period and nothing to close):
+			// that is not a timeout.
+			select {
+			case <-c.closeFatalShutdown:
+				return
+			default:
+			}
 			c.fatalShutdownFn()
 		case <-c.closeFatalShutdown:
 		}
